@@ -340,7 +340,10 @@ func (cp *chargePoint) SendRequestAsync(request ocpp.Request, callback func(conf
 	return err
 }
 
-func (cp *chargePoint) asyncCallbackHandler() {
+// asyncCallbackHandler serves the outcomes of one session (from Start to Stop). It is given the stop channel of its
+// session: Start replaces the channel in the struct, so a handler that was busy inside an application callback while the
+// endpoint was stopped and started again must not look at the field, or it never stops and keeps serving the new session.
+func (cp *chargePoint) asyncCallbackHandler(stopC chan struct{}) {
 	for {
 		select {
 		case outcome := <-cp.outcomeHandler:
@@ -354,10 +357,8 @@ func (cp *chargePoint) asyncCallbackHandler() {
 				err := fmt.Errorf("no handler available for error %v", outcome.err.Error())
 				cp.error(err)
 			}
-		case <-cp.stopC:
-			// Handler stopped, cleanup callbacks.
-			// No callback invocation, since the user manually stopped the client.
-			cp.clearCallbacks(false)
+		case <-stopC:
+			// Handler stopped. The callbacks of the session were dropped by Stop already.
 			return
 		}
 	}
@@ -415,7 +416,7 @@ func (cp *chargePoint) Start(centralSystemUrl string) error {
 	err := cp.client.Start(centralSystemUrl)
 	// Async response handler receives incoming responses/errors and triggers callbacks
 	if err == nil {
-		go cp.asyncCallbackHandler()
+		go cp.asyncCallbackHandler(cp.stopC)
 	}
 	return err
 }
@@ -423,6 +424,10 @@ func (cp *chargePoint) Start(centralSystemUrl string) error {
 func (cp *chargePoint) Stop() {
 	cp.client.Stop()
 	close(cp.stopC)
+	// Cleanup callbacks before returning: a new session may start right away and must not lose its callbacks to a
+	// late cleanup, nor inherit the callbacks of this one.
+	// No callback invocation, since the user manually stopped the client.
+	cp.clearCallbacks(false)
 
 	if cp.errC != nil {
 		close(cp.errC)
